@@ -980,6 +980,60 @@ def unit_tokenize(sess, ctx):
     return u
 
 
+def unit_string_source(sess, ctx):
+    """StringDataSource (the library's own non-audio source, used with callable validators): read() hands out the
+    characters of the string one by one, in order -- position k of the stream IS character k -- then None for ever;
+    set_data() restarts at 0 and rejects non-strings."""
+    QS = "auditok.util.StringDataSource."
+    u = Unit("StringDataSource.__init__/read/set_data", [QS + "__init__", QS + "read", QS + "set_data"])
+    eng = sess.engine()
+    eng.inline |= {QS + "set_data"}
+    PS = ("C01", "C08", "C20")
+
+    def run_(eng):
+        N = Int("len(data)")
+        eng.assume(N >= 0)
+        chf = z3.Function("char", z3.IntSort(), z3.IntSort())
+        data = Seq("str", N, lambda i: Opq(chf(I(i))))
+        op = eng.choose(3, None, "constructor / read / set_data")
+        if op == 0:
+            good = eng.choose(2, None, "a str / something else") == 0
+            me = eng.st.new_obj("StringDataSource", {})
+            try:
+                eng.run_function(sess.func_info(QS + "__init__"), [data if good else Int("x")], {}, me)
+            except PyRaise as e:
+                eng.prove("C01:string-source:rejects-only-non-strings", (not good) and e.exc == "ValueError", props=PS)
+                return None
+            h = eng.st.heap[me.oid]
+            eng.prove("C01:string-source:starts-at-character-0-of-the-given-string", good and h.get("_data") is data and
+                      is_int_(h.get("_current")) and z3.is_true(z3.simplify(I(h["_current"]) == 0)), props=PS)
+            return None
+        cur = Int("current")
+        eng.assume(And(cur >= 0, cur <= N))
+        me = eng.st.new_obj("StringDataSource", {"_data": data, "_current": cur})
+        h = eng.st.heap[me.oid]
+        if op == 1:
+            r = eng.run_function(sess.func_info(QS + "read"), [], {}, me)
+            if r is None:
+                eng.prove("C08:string-source:None-only-at-the-end-and-the-position-stays", And(cur == N, I(h["_current"]) == cur), props=PS)
+                return None
+            eng.prove("C01:string-source:read-returns-character-k-and-advances-by-one",
+                      And(cur < N, I(h["_current"]) == cur + 1, r.t == chf(cur)) if isinstance(r, Opq) and r.t is not None else False, props=PS)
+            return None
+        data2 = Seq("str", Int("len(data2)"), lambda i: Opq())
+        eng.run_function(sess.func_info(QS + "set_data"), [data2], {}, me)
+        eng.prove("C20:string-source:set_data-restarts-at-0-on-the-new-string", h["_data"] is data2 and
+                  z3.is_true(z3.simplify(I(h["_current"]) == 0)), props=PS)
+        return None
+    sess.run_unit(u, eng, run_)
+    return u
+
+
+def is_int_(x):
+    from pyvc.values import is_int
+    return is_int(x)
+
+
 def _in_context(fn):
     def run(sess, ctx, opts):
         global CONTEXT
@@ -999,6 +1053,7 @@ UNITS = {
     "iter_tokens": _in_context(lambda sess, ctx, opts: unit_iter_tokens(sess, ctx, opts["active"])),
     "tokenize": lambda sess, ctx, opts: unit_tokenize(sess, ctx),
     "stale_fields": lambda sess, ctx, opts: unit_stale_fields(sess, ctx),
+    "string_source": lambda sess, ctx, opts: unit_string_source(sess, ctx),
 }
 HOUDINI = {"names": INV_NAMES, "units": ["process", "post_process", "iter_tokens"]}
 
